@@ -43,9 +43,14 @@ def ctor_strategy():
         gen.url_string(txt(), hosts=hosts()).map(lambda s: ["str", s]),
         st.sampled_from(["http://h", "http://h/", "http://H:80/", "//:77", "//u@:0", "http://h/a b", "http://h/a%20b", "http://[::1]/", "/a/b", "a", "", "http://h/?k=v", "http://a b/", "http://h/a/%E2%82", "http://h/b/%AC", "http://h/%", "http://h/41?%#%"]).map(lambda s: ["str", s]),
         gen.url_string(txt(), hosts=hosts()).map(lambda s: ["enc", s]),
-        st.sampled_from(["http://h", "http://h/a b", "//:77", "http://H/", "http://h:99999/", "http://u:p@h:http/p", "http://h:80:80/", "//[::1]:x", "http://h:080/",
+        st.sampled_from(["http://h", "http://h/a b", "//:77", "http://H/", "http://h/", "http://h:80/", "https://u@h:443/", "http://h?a=1", "http://h/?a=1", "http://EXAMPLE.com:080/p", "http://h:99999/", "http://u:p@h:http/p", "http://h:80:80/", "//[::1]:x", "http://h:080/",
                          "http://h/..profile", "http://h/a/...rc"]).map(lambda s: ["enc", s]),
         prog.build_kwargs(txt(), hosts()).map(lambda kw: ["build", kw]),
+        # pre-encoded build(): a handful of part combinations (so that the module caches hand out shared objects) x an optional query in either form
+        st.fixed_dictionaries({"scheme": st.sampled_from(["http", "HTTP", ""]), "host": st.sampled_from(["h", "H.Example", "[::1]"]), "path": st.sampled_from(["", "/", "/p"])},
+                              optional={"query": st.dictionaries(st.sampled_from(["a", "b"]), st.sampled_from(["1", "x y", "%41"]), max_size=2), "query_string": st.sampled_from(["", "a=1", "b=%41&c"]),
+                                        "fragment": st.sampled_from(["", "f"]), "port": st.sampled_from([None, 80, 81])})
+        .filter(lambda kw: not ("query" in kw and kw["query"] and kw.get("query_string"))).map(lambda kw: ["build_enc", kw]),
     )
 
 
@@ -58,6 +63,16 @@ def outcome(f):
 
 CALLS = {"str": str, "repr": repr, "bytes": bytes, "hash": hash, "bool": bool, "human_repr": lambda u: u.human_repr(), "is_default_port": lambda u: u.is_default_port(),
          "query": lambda u: list(u.query.items()), "origin": lambda u: str(u.origin()), "relative": lambda u: str(u.relative()), "parent": lambda u: str(u.parent)}
+
+
+# a URL used as the source of its own modification: the argument is a function of the receiver, so the outcome must not depend on which
+# of its accessors happen to be memoised
+SELF = {"with_host": lambda u: u.with_host(u.host), "with_host_raw": lambda u: u.with_host(u.raw_host), "with_user": lambda u: u.with_user(u.user),
+        "with_password": lambda u: u.with_password(u.password), "with_path": lambda u: u.with_path(u.path), "with_path_enc": lambda u: u.with_path(u.raw_path, encoded=True),
+        "with_fragment": lambda u: u.with_fragment(u.fragment), "with_query": lambda u: u.with_query(u.query), "with_query_str": lambda u: u.with_query(u.query_string),
+        "with_name": lambda u: u.with_name(u.name), "with_suffix": lambda u: u.with_suffix(u.suffix), "with_scheme": lambda u: u.with_scheme(u.scheme),
+        "with_port": lambda u: u.with_port(u.explicit_port), "with_port_eff": lambda u: u.with_port(u.port), "join_self": lambda u: u.join(u),
+        "update_query": lambda u: u.update_query(u.query), "extend_query": lambda u: u.extend_query(u.query), "truediv_name": lambda u: u.parent / u.name}
 
 
 def rebuild(Y, parts):
@@ -92,6 +107,10 @@ def do_step(Y, s, operands):
         return result_outcome(Y, lambda: operands[0].join(operands[1]))
     if kind == "mod":
         return result_outcome(Y, lambda: prog.apply(Y, operands[0], s[2]))
+    if kind == "reparse":
+        return result_outcome(Y, lambda: Y.URL(str(operands[0]), encoded=bool(s[2])))
+    if kind == "selfmod":
+        return result_outcome(Y, lambda: SELF[s[2]](operands[0]))
     if kind == "pickle":
         return result_outcome(Y, lambda: pickle.loads(pickle.dumps(operands[0], s[2] if len(s) > 2 else 2)))
     if kind in ("copy", "deepcopy"):
@@ -196,7 +215,7 @@ class State:
         idx = [s[1] % len(self.pool)] + ([s[2] % len(self.pool)] if kind in ("cmp", "join") else [])
         ops = [self.pool[i][0] for i in idx]
         route = self.pool[idx[0]][2]
-        if kind in ("read", "call", "mod"):
+        if kind in ("read", "call", "mod", "selfmod", "reparse"):
             if idx[0] in self.read_before:
                 self.flags["reuse"] = True
             self.read_before.add(idx[0])
@@ -221,6 +240,8 @@ class State:
                 r_route = "twin:" + route
             if kind == "join":
                 r_route = "join"
+            if kind == "reparse":
+                r_route = "enc" if s[2] else "str"
             for i, u in zip(idx, ops):
                 if rb is u:
                     r_route = self.pool[i][2]
@@ -306,6 +327,14 @@ class Machine(RuleBasedStateMachine):
           val=st.sampled_from([0.0, -0.0, 1, True - 1, 1e16, -1e20, 2.5, 10 ** 20]), key=st.sampled_from(["lat", "k", "a b"]))
     def numeric_query(self, i, name, val, key):
         self.s.step(["mod", i, [name, {key: val}]])
+
+    @rule(i=st.integers(0, 7), name=st.sampled_from(sorted(SELF)))
+    def selfmod(self, i, name):
+        self.s.step(["selfmod", i, name])
+
+    @rule(i=st.integers(0, 7), enc=st.booleans())
+    def reparse(self, i, enc):
+        self.s.step(["reparse", i, enc])
 
     @rule(i=st.integers(0, 7), proto=st.integers(0, 5))
     def pickle_(self, i, proto):
